@@ -183,6 +183,15 @@ func byteLayout(ev *tf.Eval, t *tf.Term, bufWrites map[string][]*tf.Term, starre
 			}
 			return
 		}
+		// binary.BigEndian.AppendUint32(dst, v)
+		if x.K == tf.KCall && strings.HasPrefix(x.Name, "binary.") && strings.Contains(x.Name, ".bytes") && len(x.Args) == 1 {
+			if x.Name == "binary.BigEndian.bytes32" {
+				out = append(out, layoutItem{Kind: "u32be/any", Source: stripConv(x.Args[0]), Starred: starred})
+			} else {
+				out = append(out, layoutItem{Kind: "?", Source: x, Starred: starred, Why: "encoded as " + strings.TrimPrefix(x.Name, "binary.") + ", not 4 big-endian bytes"})
+			}
+			return
+		}
 		if src, why, ok := fixed32(ev, x); ok {
 			out = append(out, layoutItem{Kind: "fix32", Source: derefArg(ev, src), Starred: starred})
 			return
